@@ -2,6 +2,7 @@
 package main
 
 import (
+	"syscall"
 	"encoding/json"
 	"fmt"
 	"math"
@@ -23,6 +24,9 @@ type Case struct {
 	Class    string `json:"string_class,omitempty"`
 	Variant  string `json:"variant,omitempty"`
 	Previous string `json:"content_under_the_name_before_the_write,omitempty"`
+	// Hostile: the directory already holds entries that sort before the written file: a dangling
+	// symbolic link with a Spec extension (a failing Spec file of its own) and a FIFO
+	Hostile bool `json:"directory_holds_a_dangling_spec_link_and_a_fifo,omitempty"`
 }
 
 // spec-env-value is the LAST scalar of the whole document in both encodings (what follows it is the end of the file)
@@ -371,11 +375,18 @@ func eval(c Case, sp *specs.Spec, dir string) hx.Result {
 	return hx.Guard("", c, func() hx.Result {
 		_ = os.RemoveAll(dir)
 		_ = os.MkdirAll(dir, 0o755)
+		if c.Hostile {
+			_ = os.Symlink(filepath.Join(dir, "no-such-target"), filepath.Join(dir, "+stale.json"))
+			_ = syscall.Mkfifo(filepath.Join(dir, "+early-fifo"), 0o644)
+		}
 		want := normImage(sp)
 		fail := func(enc, kind, msg string, act any) hx.Result {
 			sigCtx := c.Kind + ":" + cause(enc, string(c.S), c.Class) + c.Variant
 			if c.Previous != "" {
 				sigCtx += ":over:" + c.Previous
+			}
+			if c.Hostile {
+				sigCtx += ":directory-with-a-dangling-spec-link-and-a-fifo"
 			}
 			return hx.Result{Outcome: "FAIL", Nontrivial: true, Fail: &hx.Failure{Sig: enc + ":" + kind + ":" + sigCtx, Msg: fmt.Sprintf("%s at %s %s%s: %s", enc, c.Position, c.Str, c.Variant, msg),
 				Case: c, Expected: json.RawMessage(want), Actual: act, Rank: int64(len(c.S))}}
@@ -435,7 +446,15 @@ func eval(c Case, sp *specs.Spec, dir string) hx.Result {
 				continue encodings
 			}
 			// through the cache
-			if err := cache.Refresh(); err != nil {
+			onlyTheStaleLink := func() bool {
+				for p := range cache.GetErrors() {
+					if filepath.Base(p) != "+stale.json" {
+						return false
+					}
+				}
+				return c.Hostile
+			}
+			if err := cache.Refresh(); err != nil && !onlyTheStaleLink() {
 				_ = os.Remove(path)
 				note(fail(lab, "cache-load-error", "cache refresh reports "+firstLine(err.Error()), nil))
 				continue encodings
@@ -532,6 +551,12 @@ func main() {
 		}
 		for prev := range rawPrevious {
 			cases = append(cases, Case{Kind: "overwrite", Variant: cur, Previous: prev})
+		}
+	}
+	for _, c := range append([]Case{}, cases...) {
+		if c.Kind == "numeric" || (c.Kind == "overwrite" && c.Previous == "base") {
+			c.Hostile = true
+			cases = append(cases, c)
 		}
 	}
 	r.Extra["overwrite_histories"] = len(famNames) * (len(famNames) + len(rawPrevious))
